@@ -13,6 +13,14 @@ import time
 
 src, name, props = sys.argv[1], sys.argv[2], sys.argv[3:]
 W = f'/tmp/seedwt-{name}'
+if os.path.realpath(src) == os.path.realpath(f'/verif/seeded/{name}'):
+    # re-verification of an already kept change: work from a staged copy (the destination is rewritten below)
+    import tempfile
+    stage = tempfile.mkdtemp(prefix='seedsrc-')
+    shutil.copytree(src, os.path.join(stage, name))
+    src = os.path.join(stage, name)
+    if not props:
+        props = list(json.load(open(os.path.join(src, 'meta.json'))).get('checks', {}).keys())
 ENV = dict(os.environ, CARGO_NET_OFFLINE='true')
 
 
@@ -61,7 +69,7 @@ try:
     shutil.copytree(src, dst)
     notes = os.path.join(dst, 'NOTES.md')
     meta['needs_to_manifest'] = open(notes).read()[:1500] if os.path.exists(notes) else ''
-    for junk in ('suite_with_change.log', 'suite_clean.log', 'demo_with_change.log', 'demo_without_change.log'):
+    for junk in ('suite_with_change.log', 'suite_clean.log', 'demo_with_change.log', 'demo_without_change.log', 'demo_mutant.log', 'demo_clean.log', 'full_suite_mutant.log'):
         try:
             os.unlink(os.path.join(dst, junk))
         except OSError:
